@@ -256,14 +256,17 @@ Proof.
 Qed.
 
 Lemma all_locations_sound svc l d :
-  In d (all_locations svc l) -> exists ep, In ep l /\ answer_target ep d.
+  In d (all_locations svc l) -> exists ep, In ep l /\ pick_target svc ep d.
 Proof.
   unfold all_locations, response_locations, locations. intros H. apply in_app_or in H as [H|H].
-  - destruct (resp_excluded svc); [contradiction|]. apply in_flat_map in H as [ep [Hin Hd]].
-    exists ep. split; [exact Hin|]. right. destruct (ep_resp ep) as [r|]; [|contradiction].
+  - destruct (resp_excluded svc) eqn:Ex; [contradiction|]. apply in_flat_map in H as [ep [Hin Hd]].
+    exists ep. split; [exact Hin|]. right. split; [exact Ex|]. destruct (ep_resp ep) as [r|]; [|contradiction].
     destruct Hd as [->|[]]. reflexivity.
   - apply in_map_iff in H as [ep [He Hin]]. exists ep. split; [exact Hin|]. left; exact He.
 Qed.
+
+Lemma pick_target_answer svc ep d : pick_target svc ep d -> answer_target ep d.
+Proof. intros [H|[_ H]]; [left|right]; exact H. Qed.
 
 Lemma hd_error_In {A} (l : list A) x : hd_error l = Some x -> In x l.
 Proof. destruct l; cbn; [discriminate|]. intros H. inversion H. left; reflexivity. Qed.
@@ -281,7 +284,7 @@ Definition selected (m : md) (eid typ svc : string) (url index : option string) 
     /\ match url, index with
        | Some u, _ => d = u /\ ep_location ep = u
        | None, Some i => ep_index ep = Some i /\ ep_location ep = d
-       | None, None => answer_target ep d
+       | None, None => pick_target svc ep d
        end.
 
 Lemma pick_loop_sound m eid typ svc url index bs :
@@ -384,8 +387,8 @@ Proof.
         * apply truthy_none in Ei. split; [|split].
           -- intros u' Hu'. exfalso. exact (given_not_absent _ _ Hu' Eu).
           -- intros _ i' Hi'. exfalso. exact (given_not_absent _ _ Hi' Ei).
-          -- intros _ _. exact Hsel.
-    - cbn [fst snd] in Hsel. apply target_non_authn; [exact Ea|exact Hsel]. }
+          -- intros _ _. exact (pick_target_answer _ _ _ Hsel).
+    - cbn [fst snd] in Hsel. apply target_non_authn; [exact Ea|exact (pick_target_answer _ _ _ Hsel)]. }
   destruct (rq_class req) eqn:Ec.
   - apply (Hgo S_ACS R_SP "spsso"); reflexivity.
   - apply (Hgo S_SLO (peer_role etype descr) descr); reflexivity.
@@ -454,6 +457,31 @@ Proof.
   destruct (pick_binding m etype prefs svc bindings descr None entity_id) as [b od| | | | |e]; try exact H.
   destruct H as [bs [_ [d [ep [Hod [_ [Hp [Hb Hsel]]]]]]]]. subst od. cbn in Hsel |- *.
   exists ep. rewrite service_role_typ. repeat split; assumption.
+Qed.
+
+(* round 7: for the services that must not have a ResponseLocation (SingleSignOnService,
+   ArtifactResolutionService, NameIDMappingService) the destination is the LOCATION of a published endpoint,
+   whatever stray ResponseLocation attributes the metadata carries: for the model ... *)
+Lemma pick_location_only m etype prefs svc bindings descr entity_id b d :
+  location_only svc = true ->
+  pick_binding m etype prefs svc bindings descr None entity_id = Dest b (Some d) ->
+  exists ep, publishes m entity_id (service_role svc etype descr) svc ep /\ ep_binding ep = b /\ ep_location ep = d.
+Proof.
+  intros Hlo He. pose proof (pick_sound_entity m etype prefs svc bindings descr entity_id) as H.
+  rewrite He in H. cbn [pick_spec] in H. destruct H as [ep [Hp [Hb [Hl|[Hx _]]]]].
+  - exists ep. repeat split; assumption.
+  - rewrite Hlo in Hx. discriminate.
+Qed.
+
+(* ... and for every outcome that passes the spec (the outcomes recorded on the real code) *)
+Lemma spec_location_only m etype prefs svc bindings descr entity_id b d :
+  location_only svc = true ->
+  spec m (OpPick etype prefs svc bindings descr entity_id) (Dest b (Some d)) ->
+  exists ep, publishes m entity_id (service_role svc etype descr) svc ep /\ ep_binding ep = b /\ ep_location ep = d.
+Proof.
+  intros Hlo H. cbn [spec pick_spec] in H. destruct H as [ep [Hp [Hb [Hl|[Hx _]]]]].
+  - exists ep. repeat split; assumption.
+  - rewrite Hlo in Hx. discriminate.
 Qed.
 
 (* ---------------------------------------------------------------- SSO *)
@@ -667,15 +695,21 @@ Proof.
     split; [apply String.eqb_eq; exact Hb|apply chosen_by_b_iff; exact Hc].
 Qed.
 
+Lemma pick_target_b_iff svc ep d : pick_target_b svc ep d = true <-> pick_target svc ep d.
+Proof.
+  unfold pick_target_b, pick_target.
+  rewrite orb_true_iff, andb_true_iff, negb_true_iff, String.eqb_eq, opt_eqb_some_eq. tauto.
+Qed.
+
 Lemma pick_spec_b_iff m svc typ eid out : pick_spec_b m svc typ eid out = true <-> pick_spec m svc typ eid out.
 Proof.
   unfold pick_spec_b, pick_spec.
   destruct out as [b [d|]| | | | |e]; try (split; [discriminate|contradiction]); try tauto.
   rewrite existsb_published. split; intros [ep H]; exists ep.
   - destruct H as [Hp Hf]. apply andb_true_iff in Hf as [Hb Ht]. split; [exact Hp|].
-    split; [apply String.eqb_eq; exact Hb|apply answer_target_b_iff; exact Ht].
+    split; [apply String.eqb_eq; exact Hb|apply pick_target_b_iff; exact Ht].
   - destruct H as [Hp [Hb Ht]]. split; [exact Hp|]. apply andb_true_iff.
-    split; [apply String.eqb_eq; exact Hb|apply answer_target_b_iff; exact Ht].
+    split; [apply String.eqb_eq; exact Hb|apply pick_target_b_iff; exact Ht].
 Qed.
 
 Lemma entity_ids_In m e : In e (entity_ids m) <-> exists s x, In s m /\ In (e, x) s.
